@@ -17,7 +17,6 @@ var avoid = map[string]bool{
 	"exit=return through=mapl-lambda.last":         true,
 	"exit=return through=maplist-lambda.body":      true,
 	"exit=return through=maplist-lambda.last":      true,
-	"exit=return to=prog.init":                     true,
 	"exit=return-from through=mapc-lambda.body":    true,
 	"exit=return-from through=mapc-lambda.last":    true,
 	"exit=return-from through=mapl-lambda.body":    true,
